@@ -121,9 +121,12 @@ def caps_for(date, params, res, df):
     return [c for c in out if c]
 
 
+MODES = ["zero", "rich", "negative_rent", "old", "many_children", "mixed", "unemployed_high_earner", "disabled"]
+
+
 def corner_population(date, rnd, tid):
     kinds = list(popgen.CANON)
-    mode = ["zero", "rich", "negative_rent", "old", "many_children", "mixed", "unemployed_high_earner"][tid % 7]
+    mode = MODES[tid % len(MODES)]
     structs = [popgen.CANON[rnd.choice(kinds)] for _ in range(rnd.choice([1, 2]))]
     prof = {}
     if mode == "zero":
@@ -135,6 +138,16 @@ def corner_population(date, rnd, tid):
     elif mode == "unemployed_high_earner":
         prof = {"arbeitssuchend": lambda i, r, d, rr: d["alter"] >= 18, "anwartschaftszeit": True, "sozialv_pflicht_5j": 60.0, "arbeitsstunden_w": 0.0, "bruttolohn_m": 0.0, "m_durchg_alg1_bezug": 0.0,
                 "bruttolohn_vorj_m": lambda i, r, d, rr: rr.choice([3000.0, 7000.0, 20000.0, 1e6]) if d["alter"] >= 18 else 0.0, "rentner": False}
+    elif mode == "disabled":
+        # reduced earning capacity (Erwerbsminderungsrente is a default target): fully / partially, pension started this year or
+        # up to 15 years ago (young retirement ages), with and without the 36 months of compulsory contributions
+        year = gs.year_of(date)
+        prof = {"voll_erwerbsgemind": lambda i, r, d, rr: d["alter"] >= 18 and rr.random() < 0.5,
+                "teilw_erwerbsgemind": lambda i, r, d, rr: d["alter"] >= 18 and not d["voll_erwerbsgemind"] and rr.random() < 0.7,
+                "rentner": lambda i, r, d, rr: d["alter"] >= 18 and (d["voll_erwerbsgemind"] or d["teilw_erwerbsgemind"] or d["rentner"]),
+                "jahr_renteneintr": lambda i, r, d, rr: (year - rr.choice([0, 0, 1, 5, 15][: (3 if d["alter"] < 25 else 5)])) if (d["voll_erwerbsgemind"] or d["teilw_erwerbsgemind"]) else d["jahr_renteneintr"],
+                "m_pflichtbeitrag": lambda i, r, d, rr: rr.choice([0.0, 35.0, 36.0, 60.0, 240.0]) if d["alter"] >= 18 else 0.0,
+                "bruttolohn_m": lambda i, r, d, rr: rr.choice([0.0, 0.0, 450.0, 1500.0]) if d["alter"] >= 18 else 0.0}
     P = popgen.compose(structs, date, rnd, profile=prof)
     if mode == "old":
         for p in P:
@@ -175,6 +188,7 @@ def job(j):
     except Exception as e:  # noqa: BLE001
         info["base_error"] = f"{type(e).__name__}: {str(e)[:200]}"
         return info
+    info["positive"] = {t: int((res[t].to_numpy() > 0).sum()) for t in dt if t in res}
     info["excluded_default"] = sorted(set(excluded) & gs.default_ancestors(date, list(df)))[:10]
     pool = enc.Pool()
     events, meta = [], []
@@ -210,13 +224,15 @@ def run(tier):
     from c04 import change_dates_for
 
     dates = change_dates_for(rnd, quick, 3, nreg=1)
-    njobs = 35 if quick else 16 * len(dates)
+    njobs = 40 if quick else 16 * len(dates)
     outs = pool_map(job, sorted([(dates[t % len(dates)], rnd.randrange(1 << 30), t, str(chk.work)) for t in range(njobs)]))
     seen = set()
     for info in outs:
         if "base_error" in info:
             chk.violation(f"C16|raised|date={info['date']}|{info['base_error'][:50]}", f"computing all nodes raised on a corner population ({info['mode']})", {k: info[k] for k in ("date", "mode", "persons", "base_error")})
             continue
+        for t_, n_ in info.get("positive", {}).items():
+            chk.notes.setdefault("rows_with_positive_default_target", {})[t_] = chk.notes.get("rows_with_positive_default_target", {}).get(t_, 0) + n_
         chk.count(info["nout"] + info["ncap"])
         chk.cov["traces_validated_against_impl"] += 1
         chk.notes["trace_tlc_states"] = chk.notes.get("trace_tlc_states", 0) + info["tlc_states"]
@@ -230,7 +246,7 @@ def run(tier):
             chk.violation(sig, f"{m['node']}: {clause}" + (f" ({m['cap']})" if "cap" in m else "") + f" on a {info['mode']} population at {info['date']}", {"date": info["date"], "mode": info["mode"], "persons": info["persons"], **m})
         chk.sample({"date": info["date"], "mode": info["mode"], "persons": info["n"], "columns": info["nout"], "caps": info["ncap"]})
     chk.cov["rule"] = (
-        "corner populations in seven modes (all incomes zero; 1e7 yearly income with 1e9 wealth; negative rental income; ages 67-100 pensioners; couple with 6-10 children; mixed; unemployed former high earners) over random structures, all nodes with rounding on, at 5 seeded change / regime dates (thorough: every change date 2015-2025 outside 2017H1); "
+        "corner populations in eight modes (reduced earning capacity with early pension start; all incomes zero; 1e7 yearly income with 1e9 wealth; negative rental income; ages 67-100 pensioners; couple with 6-10 children; mixed; unemployed former high earners) over random structures, all nodes with rounding on, at 5 seeded change / regime dates (thorough: every change date 2015-2025 outside 2017H1); "
         "every numeric column checked Finite, default targets NonNegative, 6-8 cap relations per run; distinct_nontrivial = distinct (date, mode, population)"
     )
     chk.assumptions += ["caps are a hand-written table of relations (see caps_for); the 'e.g.' list of the statement is covered first", "non-negativity tolerance 1e-9"]
